@@ -36,6 +36,8 @@ def input_tags(code):
             tags.append("flag:barry_as_FLUFL")
     except Exception:
         pass
+    if code.co_flags & 0x3A0 and (code.co_flags & 3) != 3:
+        tags.append("flag:generator-kind-outside-function")
     return tags
 
 
